@@ -3,8 +3,8 @@
    and the lend rate never exceeds the borrow rate.
    Property theorems only; each is closed by a lemma proved in Proofs/.  Dec values are their
    10^18-scaled integers ("ulp" = 10^-18); floats are integers in units of 2^-1074.          *)
-From Comdex Require Import Lib.Base Lib.DecArith Lib.F64 Model.Accrual Model.Rates
-  Proofs.AccrualProofs Proofs.RatesProofs.
+From Comdex Require Import Lib.Base Lib.DecArith Lib.F64 Model.Accrual Model.AccrualFast Model.Pow Model.Rates Model.AccrualSites
+  Proofs.AccrualProofs Proofs.AccrualFastProofs Proofs.PowProofs Proofs.CmpSubaddProofs Proofs.RatesProofs Proofs.AccrualSitesProofs.
 
 (* ============ (i) index accrual: CalculateLendReward / CalculateBorrowInterest ============ *)
 (* how the three lend functions reach the common step: negative elapsed time is an error, a
@@ -143,93 +143,346 @@ Qed.
 Print Assumptions c18_carry.
 
 (* ============ (ii) rate model ============ *)
+(* The parameters are those that AssetRatesParams.Validate accepts ([rates_valid]); the keeper
+   functions behind both governance handlers store nothing else ([c18_rate_params_stored_valid]).
+   Since the repair of C18-F1 validity includes UOptimal < 1, so no hypothesis on UOptimal
+   remains below.  [stable] selects the curve as the IsStableBorrow flag of
+   GetBorrowAPRByAssetID does. *)
 Theorem c18_util_range : forall m b u, 0 <= m -> 0 <= b -> utilisation m b = Some u -> 0 <= u <= P18.
 Proof. exact utilisation_range. Qed.
 Print Assumptions c18_util_range.
 
-Theorem c18_rate_base : forall uopt base s1 s2 r, 0 < uopt ->
-  kink_apr 0 uopt base s1 s2 = Some r -> r = base.
-Proof. intros uopt base s1 s2 r H E. apply kink_apr_spec in E. rewrite E. apply kink_base; assumption. Qed.
+Theorem c18_rate_params_stored_valid : forall p q,
+  (add_rates_params p = Ok q -> q = p /\ rates_valid q = true) /\
+  (forall n d e, add_rates_pool_pairs p n d e = Ok q -> q = p /\ rates_valid q = true) /\
+  (P18 <= rp_uopt p -> add_rates_params p = Err 1 /\ forall n d e, add_rates_pool_pairs p n d e = Err 1).
+Proof.
+  intros p q. split; [|split].
+  - intros E. apply add_rates_params_spec in E as [-> V]. auto.
+  - intros n d e E. apply add_rates_pool_pairs_spec in E as [-> V]. auto.
+  - intros H. apply rates_valid_uopt_lt_one in H. unfold add_rates_params, add_rates_pool_pairs, pool_pairs_valid.
+    rewrite H. auto.
+Qed.
+Print Assumptions c18_rate_params_stored_valid.
+
+(* with validated parameters of sane magnitude (each rate below 2^128 ulps) the borrow rate of
+   both kinds and the lend rate are DEFINED at every utilisation in [0,1]: no division by zero,
+   no overflow panic *)
+Theorem c18_rate_defined : forall p stable u, rates_valid p = true -> rates_bounded p = true ->
+  0 <= u <= P18 ->
+  (exists r, borrow_apr p stable u = Some r /\ 0 <= r) /\ exists l, lend_apr_p p u = Some l.
+Proof.
+  intros p stable u V B Hu. apply rates_valid_spec in V as (_ & Uo & Hb & H1 & H2 & Hsb & Hs1 & Hs2 & _ & _ & _ & _ & Hrf & _).
+  apply rates_bounded_spec in B as (B1 & B2 & B3 & B4 & B5 & B6 & B7).
+  pose proof (kink_defined u (rp_uopt p) (rp_base p) (rp_s1 p) (rp_s2 p) ltac:(lia) ltac:(lia) ltac:(lia) ltac:(lia) ltac:(lia) Hu) as [Ev Rv].
+  split.
+  - rewrite borrow_apr_curve. destruct stable.
+    + pose proof (kink_defined u (rp_uopt p) (rp_sbase p) (rp_ss1 p) (rp_ss2 p) ltac:(lia) ltac:(lia) ltac:(lia) ltac:(lia) ltac:(lia) Hu) as [Es Rs].
+      eexists. split; [exact Es|lia].
+    + eexists. split; [exact Ev|lia].
+  - unfold lend_apr_p, borrow_apr, obindr. rewrite Ev.
+    pose proof (lend_defined (kink_val u (rp_uopt p) (rp_base p) (rp_s1 p) (rp_s2 p)) u (rp_rf p) ltac:(lia) Hu ltac:(lia)) as [El _].
+    eexists. exact El.
+Qed.
+Print Assumptions c18_rate_defined.
+
+Theorem c18_rate_base : forall p stable r, rates_valid p = true ->
+  borrow_apr p stable 0 = Some r -> r = if stable then rp_sbase p else rp_base p.
+Proof.
+  intros p stable r V E. apply rates_valid_spec in V as (_ & Uo & _). rewrite borrow_apr_curve in E.
+  apply kink_apr_spec in E. rewrite E. apply kink_base; lia.
+Qed.
 Print Assumptions c18_rate_base.
 
 (* both branches and across the kink *)
-Theorem c18_rate_monotone : forall u1 u2 uopt base s1 s2 r1 r2,
-  0 < uopt -> uopt < P18 -> 0 <= s1 -> 0 <= s2 -> 0 <= u1 -> u1 <= u2 ->
-  kink_apr u1 uopt base s1 s2 = Some r1 -> kink_apr u2 uopt base s1 s2 = Some r2 -> r1 <= r2.
+Theorem c18_rate_monotone : forall p stable u1 u2 r1 r2, rates_valid p = true ->
+  0 <= u1 -> u1 <= u2 ->
+  borrow_apr p stable u1 = Some r1 -> borrow_apr p stable u2 = Some r2 -> r1 <= r2.
 Proof.
-  intros until r2. intros A B C D E F E1 E2. apply kink_apr_spec in E1. apply kink_apr_spec in E2.
-  subst. apply kink_monotone; assumption.
+  intros p stable u1 u2 r1 r2 V A B E1 E2.
+  apply rates_valid_spec in V as (_ & Uo & Hb & H1 & H2 & Hsb & Hs1 & Hs2 & _).
+  rewrite borrow_apr_curve in E1, E2. apply kink_apr_spec in E1. apply kink_apr_spec in E2. subst.
+  apply kink_monotone; try lia; destruct stable; lia.
 Qed.
 Print Assumptions c18_rate_monotone.
 
 (* continuity at the kink: the value at u_opt is base + slope1 and exceeds the value one ulp
    below by at most (2*slope1/u_opt + 1) ulps *)
-Theorem c18_rate_kink : forall uopt base s1 s2 r_at r_below,
-  1 < uopt -> uopt < P18 -> 0 <= s1 -> 0 <= s2 ->
-  kink_apr uopt uopt base s1 s2 = Some r_at -> kink_apr (uopt - 1) uopt base s1 s2 = Some r_below ->
-  r_at = base + s1 /\ 0 <= r_at - r_below /\ (r_at - r_below) * uopt <= 2 * s1 + uopt.
+Theorem c18_rate_kink : forall p stable r_at r_below, rates_valid p = true ->
+  borrow_apr p stable (rp_uopt p) = Some r_at -> borrow_apr p stable (rp_uopt p - 1) = Some r_below ->
+  let base := if stable then rp_sbase p else rp_base p in
+  let s1 := if stable then rp_ss1 p else rp_s1 p in
+  r_at = base + s1 /\ 0 <= r_at - r_below /\ (r_at - r_below) * rp_uopt p <= 2 * s1 + rp_uopt p.
 Proof.
-  intros until r_below. intros A B C D E1 E2. apply kink_apr_spec in E1. apply kink_apr_spec in E2. subst.
-  pose proof (kink_jump uopt base s1 s2 A B C D) as J. cbv zeta in J.
-  split; [apply kink_at|]. tauto.
+  intros p stable r_at r_below V E1 E2.
+  apply rates_valid_spec in V as (_ & Uo & Hb & H1 & H2 & Hsb & Hs1 & Hs2 & _).
+  rewrite borrow_apr_curve in E1, E2. apply kink_apr_spec in E1. apply kink_apr_spec in E2. subst. cbv zeta.
+  split; [apply kink_at|].
+  apply kink_jump_all; try lia; destruct stable; lia.
 Qed.
 Print Assumptions c18_rate_kink.
 
-Theorem c18_lend_le_borrow : forall b u rf r, 0 <= b -> 0 <= u <= P18 -> 0 <= rf <= P18 ->
-  lend_apr b u rf = Some r -> 0 <= r <= b.
-Proof. intros b u rf r A B C E. apply lend_apr_spec in E. subst. apply lend_le_borrow; assumption. Qed.
+(* the lend rate never exceeds the (variable) borrow rate; it is non-negative when the reserve
+   factor is at most 1, which Validate does not enforce (a reserve factor above 1 makes the lend
+   rate negative: still below the borrow rate) *)
+Theorem c18_lend_le_borrow : forall p u b l, rates_valid p = true -> 0 <= u <= P18 ->
+  borrow_apr p false u = Some b -> lend_apr_p p u = Some l ->
+  l <= b /\ (rp_rf p <= P18 -> 0 <= l).
+Proof.
+  intros p u b l V Hu Eb El. unfold lend_apr_p, obindr in El. rewrite Eb in El.
+  apply rates_valid_spec in V as (_ & Uo & Hb & H1 & H2 & _ & _ & _ & _ & _ & _ & _ & Hrf & _).
+  rewrite borrow_apr_curve in Eb. apply kink_apr_spec in Eb. apply lend_apr_spec in El. subst.
+  set (b := kink_val u (rp_uopt p) (rp_base p) (rp_s1 p) (rp_s2 p)).
+  assert (B0 : rp_base p <= b).
+  { unfold b. rewrite <- (kink_base (rp_uopt p) (rp_base p) (rp_s1 p) (rp_s2 p)) at 1 by lia.
+    apply kink_monotone; lia. }
+  split.
+  - destruct (Z.le_gt_cases (rp_rf p) P18).
+    + apply lend_le_borrow; lia.
+    + unfold lend_val. pose proof (DecFacts.dmul_nonneg b u ltac:(lia) ltac:(lia)).
+      pose proof (dmul_nonneg_nonpos (DecArith.dmul b u) (P18 - rp_rf p) ltac:(lia) ltac:(lia)). lia.
+  - intros. apply lend_le_borrow; lia.
+Qed.
 Print Assumptions c18_lend_le_borrow.
 
-(* known finding C18-F1: UOptimal = 1 passes AssetRatesParams.Validate; at full utilisation the
-   rate computation panics (Quo by 1 - UOptimal = 0) *)
-Theorem c18_rate_uopt_one_refuted : forall base s1 s2,
-  kf_C18_1 P18 = true /\ kink_apr P18 P18 base s1 s2 = None.
-Proof. intros. split; [reflexivity|apply kink_uopt_one_panics]. Qed.
-Print Assumptions c18_rate_uopt_one_refuted.
+(* regression case of the repaired finding C18-F1: UOptimal = 1 with otherwise mainnet-like values
+   is rejected by Validate and by both keeper functions; unvalidated, the curve of maths.go
+   would still divide by zero at full utilisation, and any UOptimal < 1 that passes is defined *)
+Definition c18_f1_witness : rate_params :=
+  mkRP 1 P18 2000000000000000 80000000000000000 1500000000000000000 0 0 0
+       700000000000000000 75000000000000000 75000000000000000 650000000000000000 200000000000000000 8.
+Example c18_rate_uopt_one_rejected :
+  rates_valid c18_f1_witness = false /\ add_rates_params c18_f1_witness = Err 1 /\
+  add_rates_pool_pairs c18_f1_witness 14 true false = Err 1 /\
+  borrow_apr c18_f1_witness false P18 = None /\
+  (let q := mkRP 1 (P18 - 1) 2000000000000000 80000000000000000 1500000000000000000 0 0 0
+       700000000000000000 75000000000000000 75000000000000000 650000000000000000 200000000000000000 8 in
+   add_rates_params q = Ok q /\ borrow_apr q false P18 = Some 1582000000000000000 /\
+   lend_apr_p q P18 = Some 1265600000000000000).
+Proof. vm_compute. repeat split. Qed.
 
 (* ============ (iii) compound accrual through float64: CalculationOfRewards ============ *)
-(* math.Pow is the variable [pow]; H1-H3 are explicit premises.  They are assumptions about Go's
-   math.Pow on amd64, TESTED by the harness on every evaluated point and on neighbouring pairs,
-   not proved.  Everything downstream (Dec->float conversion, f-1, *amount, 'f'-18 formatting) is
-   the exact round-to-nearest-even model of Lib/F64.v and is proved. *)
-Definition PowH1 (pow : Z -> Z -> Z) := forall x y, F_ONE <= x -> 0 <= y -> F_ONE <= pow x y.
-Definition PowH2 (pow : Z -> Z -> Z) := forall x, pow x 0 = F_ONE.
-Definition PowH3 (pow : Z -> Z -> Z) :=
-  forall x x' y y', F_ONE <= x -> x <= x' -> 0 <= y -> y <= y' -> pow x y <= pow x' y'.
-
+(* math.Pow is [go_pow core]: its two leading special cases (y == 0 || x == 1 -> 1, y == 1 -> x,
+   src/math/pow.go) are modelled exactly, the rest is the arbitrary function [core].
+   What is ASSUMED about math.Pow, as an explicit premise, is only [PowMonoBox]: monotone in each
+   argument on the operand box x in [1, 11], y in [0, 100] (rates in [0, 10], at most 100
+   years).  It is an assumption about Go's math.Pow on amd64, TESTED by the harness on
+   neighbouring observations (a failure is reported as a broken correspondence), not proved.
+   "pow x y >= 1" and "pow x 0 = 1" are no longer assumed: the first is derived, the second is
+   the modelled special case.  Everything downstream (Dec->float conversion, f-1, *amount,
+   'f'-18 formatting) is the exact round-to-nearest-even model of Lib/F64.v and is proved. *)
 Theorem c18_cmp_spec : forall pow now btime amt lsr r,
   calculation_of_rewards pow now btime amt lsr = Ok r ->
   0 <= now - btime /\ r = cmp_new pow amt lsr (now - btime).
 Proof. exact calc_spec. Qed.
 Print Assumptions c18_cmp_spec.
 
-Theorem c18_cmp_nonneg : forall pow, PowH1 pow -> forall amt lsr secs,
-  0 <= amt -> 0 <= lsr -> 0 <= secs -> 0 <= cmp_new pow amt lsr secs.
-Proof. intros pow H1. exact (cmp_nonneg pow H1). Qed.
-Print Assumptions c18_cmp_nonneg.
+(* the function the correspondence run executes (float steps by shifts, Lib/F64Fast.v) IS the
+   model: equal on every argument, for every pow *)
+Theorem c18_cmp_fast_model : forall pow now btime amt lsr secs,
+  calculation_of_rewards_fast pow now btime amt lsr = calculation_of_rewards pow now btime amt lsr /\
+  cmp_xf lsr = cmp_x lsr /\ cmp_yf secs = cmp_y secs.
+Proof. intros. split; [apply calculation_of_rewards_fast_eq|]. split; [apply cmp_xf_eq|apply cmp_yf_eq]. Qed.
+Print Assumptions c18_cmp_fast_model.
 
-Theorem c18_cmp_zero_time : forall pow, PowH2 pow -> forall amt lsr, cmp_new pow amt lsr 0 = 0.
-Proof. intros pow H2. exact (cmp_zero_time pow H2). Qed.
+Theorem c18_pow_special_cases : forall core x y,
+  go_pow core x 0 = F_ONE /\ go_pow core F_ONE y = F_ONE /\ go_pow core x F_ONE = x.
+Proof. intros. split; [apply go_pow_zero|]. split; [apply go_pow_one_base|apply go_pow_one_exp]. Qed.
+Print Assumptions c18_pow_special_cases.
+
+(* zero over zero time: no hypothesis on math.Pow *)
+Theorem c18_cmp_zero_time : forall core amt lsr, cmp_new (go_pow core) amt lsr 0 = 0.
+Proof. exact cmp_zero_time_go. Qed.
 Print Assumptions c18_cmp_zero_time.
 
-Theorem c18_cmp_monotone : forall pow, PowH1 pow -> PowH3 pow ->
+(* zero at rate zero, whatever the elapsed time: no hypothesis on math.Pow *)
+Theorem c18_cmp_zero_rate : forall core amt secs, cmp_new (go_pow core) amt 0 secs = 0.
+Proof. exact cmp_zero_rate_go. Qed.
+Print Assumptions c18_cmp_zero_rate.
+
+Theorem c18_cmp_nonneg : forall core, PowMonoBox (go_pow core) -> forall amt lsr secs,
+  0 <= amt -> 0 <= lsr -> lsr <= LSR_MAX -> 0 <= secs -> secs <= SECS_MAX ->
+  0 <= cmp_new (go_pow core) amt lsr secs.
+Proof. exact cmp_nonneg_box. Qed.
+Print Assumptions c18_cmp_nonneg.
+
+Theorem c18_cmp_monotone : forall core, PowMonoBox (go_pow core) ->
   forall amt amt' lsr lsr' secs secs',
-  0 <= amt -> amt <= amt' -> 0 <= lsr -> lsr <= lsr' -> 0 <= secs -> secs <= secs' ->
-  cmp_new pow amt lsr secs <= cmp_new pow amt' lsr' secs'.
-Proof. intros pow H1 H3. exact (cmp_monotone pow H1 H3). Qed.
+  0 <= amt -> amt <= amt' -> 0 <= lsr -> lsr <= lsr' -> lsr' <= LSR_MAX ->
+  0 <= secs -> secs <= secs' -> secs' <= SECS_MAX ->
+  cmp_new (go_pow core) amt lsr secs <= cmp_new (go_pow core) amt' lsr' secs'.
+Proof. exact cmp_monotone_box. Qed.
 Print Assumptions c18_cmp_monotone.
 
-(* PARTIAL: the exact core only.  With H4 in the tested form  pow x y1 * pow x y2 <=
-   (1 + en/2^53) * pow x y12  the accrual factors satisfy (f1-1) + (f2-1) <= (f12-1) + en/2^53*f12.
-   Missing: carrying this through the two float roundings (f-1, *amount: relative error 2^-53
-   each, Lib/F64.v rnd64_nn_err) and the 18-decimal formatting (half an ulp each) to a bound on
-   the returned Dec amounts, expected  amount * (4*2^-53*(f12-1) + eps*f12) + 1.5 ulp.  The
-   harness evaluates that bound on the implementation's results (predicate only). *)
-Theorem c18_cmp_subadditive_partial : forall en f1 f2 f12, F_ONE <= f1 -> F_ONE <= f2 ->
-  h4_ok en f1 f2 f12 = true ->
-  ((f1 - F_ONE) + (f2 - F_ONE)) * F_P53 <= (f12 - F_ONE) * F_P53 + en * f12.
-Proof. exact cmp_core_subadd. Qed.
-Print Assumptions c18_cmp_subadditive_partial.
+(* in the principal alone: for ANY pow whose value at the one operand point is >= 1 (on the box
+   that follows from PowMonoBox: PowProofs.pow_ge_one_box) *)
+Theorem c18_cmp_monotone_principal : forall pow amt amt' lsr secs,
+  F_ONE <= pow (cmp_x lsr) (cmp_y secs) -> 0 <= amt -> amt <= amt' ->
+  cmp_new pow amt lsr secs <= cmp_new pow amt' lsr secs.
+Proof. exact cmp_monotone_principal. Qed.
+Print Assumptions c18_cmp_monotone_principal.
+
+(* Two consecutive accruals on the same principal against one accrual over the combined
+   interval, on the RETURNED Dec amounts, through both float roundings (f - 1, * amount) and the
+   three 18-decimal formattings.  The premise on math.Pow is H4 alone (quasi-multiplicativity
+   over consecutive intervals, pow x y1 * pow x y2 <= (1 + en/2^53) * pow x y12, tested on every
+   interval triple: observed en <= 22) together with pow >= 1 at the three points:
+       n1 + n2 <= n12 + amount * pow x y12 * (en + 5) * 2^-53 + 2 ulp.
+   The slack is proportional to principal * growth factor (relative size (en + 5) * 2^-53, i.e.
+   3 * 10^-15 for en = 22) plus two units of the last stored decimal place: as for the index
+   accrual, "beyond rounding in the last stored decimal place" holds in that amount-relative
+   sense only (one binary64 rounding of an amount of 10^18 ulps is already 10^2 ulps). *)
+Theorem c18_cmp_subadditive : forall pow en amt lsr t1 t2,
+  let x := cmp_x lsr in
+  let f1 := pow x (cmp_y t1) in let f2 := pow x (cmp_y t2) in let f12 := pow x (cmp_y (t1 + t2)) in
+  F_ONE <= f1 -> F_ONE <= f2 -> F_ONE <= f12 -> 0 <= amt < 2 ^ 63 -> 0 <= en <= EN_MAX -> h4_ok en f1 f2 f12 = true ->
+  holds_C18_cmp_subadditive en (cmp_amtf amt) f12 (cmp_new pow amt lsr t1) (cmp_new pow amt lsr t2) (cmp_new pow amt lsr (t1 + t2)) = true /\
+  (cmp_new pow amt lsr t1 + cmp_new pow amt lsr t2 - cmp_new pow amt lsr (t1 + t2) - 2) * F_ONE * F_ONE * F_P53
+    <= P18f * cmp_amtf amt * f12 * (en + 5).
+Proof.
+  intros pow en amt lsr t1 t2. cbv zeta. intros H1 H2 H12 Ha Hen H4.
+  pose proof (cmp_subadditive pow en amt lsr t1 t2 H1 H2 H12 Ha Hen H4) as B. cbv zeta in B.
+  split; [exact B|]. unfold holds_C18_cmp_subadditive in B. apply Z.leb_le in B. exact B.
+Qed.
+Print Assumptions c18_cmp_subadditive.
+
+(* ============ (iv) the accrual sites ============ *)
+(* The keeper functions that select principal, rate and time base from the stored records, call
+   the accrual function, carry the fraction in a tracker and add the whole units to the record
+   (Model/AccrualSites.v).  "record" is Vault.InterestAccumulated / Locker.NetBalance /
+   LendAsset.AvailableToBorrow; Dec records are BorrowAsset.InterestAccumulated and the reserve
+   share BorrowInterestTracker.ReservePoolInterest. *)
+
+(* what the correspondence run executes for the float sites IS the model *)
+Theorem c18_sites_fast_model : forall pow now,
+  (forall v, vault_interest_with (calculation_of_rewards_fast pow) now v = vault_interest pow now v) /\
+  (forall lsr cbt vbh vbt amt tr ia, vault_iterate_one_with (calculation_of_rewards_fast pow) now lsr cbt vbh vbt amt tr ia
+                                     = vault_iterate_one pow now lsr cbt vbh vbt amt tr ia) /\
+  (forall l, locker_rewards_with (calculation_of_rewards_fast pow) now l = locker_rewards pow now l).
+Proof.
+  intros. split; [intros; apply vault_interest_fast_eq|]. split; [intros; apply vault_iterate_one_fast_eq|intros; apply locker_rewards_fast_eq].
+Qed.
+Print Assumptions c18_sites_fast_model.
+
+(* stability fee on a vault: which operands the site uses, and that one step neither creates nor
+   loses anything: InterestAccumulated' + tracker' = InterestAccumulated + tracker + accrued, the
+   record never decreases, the tracker stays a fraction *)
+Theorem c18_site_vault : forall pow now v x p t' r',
+  vault_interest pow now v = Ok (Updated x p t' r') ->
+  let bt := if vs_bh v =? 0 then vs_pair_bt v else vs_bt v in
+  0 <= now - bt /\ x = cmp_new pow (vs_debt v) (vs_fee v) (now - bt) /\
+  (0 <= tracker_val (vs_tracker v) < P18 -> 0 <= x ->
+     holds_C18_site_step (tracker_val (vs_tracker v)) (vs_intacc v) x p t' r' = true /\
+     r' * P18 + t' = vs_intacc v * P18 + tracker_val (vs_tracker v) + x /\ vs_intacc v <= r' /\ 0 <= t' < P18).
+Proof.
+  intros pow now v x p t' r' E. apply vault_interest_spec in E as (_ & _ & _ & _ & A & B & C & D).
+  unfold vault_bt in *. cbv zeta. split; [exact A|]. split; [exact B|]. intros Ht Hx. subst r'.
+  pose proof (site_carry_spec _ _ _ _ Ht Hx C) as (S1 & S2 & S3 & _).
+  split; [apply site_step_holds; assumption|]. split; [lia|]. split; lia.
+Qed.
+Print Assumptions c18_site_vault.
+
+(* zero elapsed time at the vault site changes neither the record nor the tracker: NO hypothesis
+   on math.Pow (its y == 0 case is modelled exactly) *)
+Theorem c18_site_vault_zero_time : forall core now v x p t' r',
+  vault_interest (go_pow core) now v = Ok (Updated x p t' r') ->
+  now = (if vs_bh v =? 0 then vs_pair_bt v else vs_bt v) -> 0 <= tracker_val (vs_tracker v) < P18 ->
+  x = 0 /\ p = 0 /\ t' = tracker_val (vs_tracker v) /\ r' = vs_intacc v.
+Proof.
+  intros core now v x p t' r' E Hn Ht. apply vault_interest_spec in E as (_ & _ & _ & _ & A & B & C & D).
+  unfold vault_bt in *. rewrite <- Hn in B. rewrite Z.sub_diag in B. rewrite cmp_zero_time_go in B. subst x.
+  apply site_carry_zero in C; [|assumption]. lia.
+Qed.
+Print Assumptions c18_site_vault_zero_time.
+
+(* savings on a locker: operands, conservation, and what is paid leaves the collector's net fees *)
+Theorem c18_site_locker : forall pow now l x p t' net ret nf,
+  locker_rewards pow now l = Ok (LUpdated x p t' net ret nf) ->
+  let bt := if ls_bh l =? 0 then ls_coll_bt l else ls_bt l in
+  0 <= now - bt /\ x = cmp_new pow (ls_balance l) (ls_lsr l) (now - bt) /\
+  net = ls_net l + p /\ ret = ls_returns l + p /\ nf = tracker_val (ls_netfee l) - p /\ (0 < p -> 0 <= nf) /\
+  (0 <= tracker_val (ls_tracker l) < P18 -> 0 <= x ->
+     holds_C18_site_step (tracker_val (ls_tracker l)) (ls_net l) x p t' net = true /\
+     net * P18 + t' = ls_net l * P18 + tracker_val (ls_tracker l) + x /\ ls_net l <= net /\ 0 <= t' < P18).
+Proof.
+  intros pow now l x p t' net ret nf E. apply locker_rewards_spec in E as (A & B & C & D & F & G & H).
+  unfold locker_bt in *. cbv zeta. repeat (split; [assumption|]). intros Ht Hx. subst net.
+  pose proof (site_carry_spec _ _ _ _ Ht Hx C) as (S1 & S2 & S3 & _).
+  split; [apply site_step_holds; assumption|]. split; [lia|]. split; lia.
+Qed.
+Print Assumptions c18_site_locker.
+
+Theorem c18_site_locker_zero_time : forall core now l x p t' net ret nf,
+  locker_rewards (go_pow core) now l = Ok (LUpdated x p t' net ret nf) ->
+  now = (if ls_bh l =? 0 then ls_coll_bt l else ls_bt l) -> 0 <= tracker_val (ls_tracker l) < P18 ->
+  x = 0 /\ p = 0 /\ t' = tracker_val (ls_tracker l) /\ net = ls_net l /\ ret = ls_returns l.
+Proof.
+  intros core now l x p t' net ret nf E Hn Ht. apply locker_rewards_spec in E as (A & B & C & D & F & G & H).
+  unfold locker_bt in *. rewrite <- Hn in B. rewrite Z.sub_diag in B. rewrite cmp_zero_time_go in B. subst x.
+  apply site_carry_zero in C; [|assumption]. lia.
+Qed.
+Print Assumptions c18_site_locker_zero_time.
+
+(* a whole history of accruals of one float-site position at times now_1 <= now_2 <= ... (each
+   call starts at the time the previous one stored; the principal of a call is c + record):
+   record_n + tracker_n = record_0 + tracker_0 + (sum of the accruals), the record never
+   decreases, the tracker stays a fraction.  Premise on math.Pow: PowMonoBox only. *)
+Theorem c18_site_history : forall core, PowMonoBox (go_pow core) ->
+  forall c rate nows bt tracker record, 0 <= rate -> rate <= LSR_MAX ->
+  0 <= tracker < P18 -> 0 <= c + record -> ascending bt nows -> last_or bt nows - bt <= SECS_MAX ->
+  let '(bt', tr', rec', sum) := site_run (go_pow core) c rate bt tracker record nows in
+  rec' * P18 + tr' = record * P18 + tracker + sum /\ 0 <= tr' < P18 /\ record <= rec' /\ 0 <= sum /\ bt' = last_or bt nows.
+Proof.
+  intros core M c rate nows bt tracker record Hr0 Hr1. apply site_run_spec.
+  intros amt secs Ha Hs Hs'. apply cmp_nonneg_box; assumption.
+Qed.
+Print Assumptions c18_site_history.
+
+(* triggering the accrual more often on the same principal (the case in which the first call paid
+   no whole unit) can make the position owe at most the accrual excess x1 + x2 - x12 more, rounded
+   up to the next whole unit: conservation turns the sub-additivity of the accrual function
+   (c18_cmp_subadditive_partial, c18_idx_subadditive) into a bound on the RECORD *)
+Theorem c18_site_more_often : forall tracker record x1 x2 x12 p1 t1 p2 t2 p12 t12,
+  0 <= tracker < P18 -> 0 <= x1 -> 0 <= x2 -> 0 <= x12 ->
+  site_carry (Some tracker) x1 = (p1, t1) -> site_carry (Some t1) x2 = (p2, t2) -> site_carry (Some tracker) x12 = (p12, t12) ->
+  ((record + p1 + p2) - (record + p12)) * P18 < (x1 + x2 - x12) + P18 /\
+  (x1 + x2 <= x12 -> record + p1 + p2 <= record + p12).
+Proof.
+  intros tracker record x1 x2 x12 p1 t1 p2 t2 p12 t12 Ht H1 H2 H12 E1 E2 E12.
+  pose proof (site_carry_spec (Some tracker) x1 p1 t1 Ht H1 E1) as (A1 & A2 & A3 & _). cbn [tracker_val] in *.
+  pose proof (site_carry_spec (Some t1) x2 p2 t2 A3 H2 E2) as (B1 & B2 & B3 & _). cbn [tracker_val] in *.
+  pose proof (site_carry_spec (Some tracker) x12 p12 t12 Ht H12 E12) as (C1 & C2 & C3 & C4). cbn [tracker_val] in *.
+  pose proof DecFacts.P18_pos. split; [nia|]. intros Hle. nia.
+Qed.
+Print Assumptions c18_site_more_often.
+
+(* lend reward site *)
+Theorem c18_site_lend : forall now last amt apr gi tr x p t' igc,
+  0 <= amt -> 0 <= apr -> 0 < gi -> 0 <= tracker_val tr < P18 ->
+  lend_site now last amt apr gi tr = Ok (x, p, t', igc) ->
+  0 <= x /\ p * P18 + t' = tracker_val tr + x /\ 0 <= p /\ 0 <= t' < P18 /\
+  (lend_secs now last = 0 -> x = 0 /\ p = 0 /\ t' = tracker_val tr).
+Proof. exact lend_site_spec. Qed.
+Print Assumptions c18_site_lend.
+
+(* borrow interest site, variable and stable-rate, and the reserve share: never decrease, unchanged
+   over zero time, the stored indices never decrease *)
+Theorem c18_site_borrow : forall now b s ia' res' igc rigc,
+  0 <= bs_amt b -> 0 <= bs_apr b -> 0 <= bs_rrate b -> 0 <= bs_stable_rate b -> 0 < bs_gi b -> 0 < bs_rgi b ->
+  borrow_site_step now b = Ok (s, ia', res', igc, rigc) ->
+  0 <= s /\ ia' = bs_intacc b + s /\ tracker_val (bs_reserve b) <= res' /\ bs_gi b <= igc /\ bs_rgi b <= rigc /\
+  (lend_secs now (bs_last b) = 0 -> s = 0 /\ res' = tracker_val (bs_reserve b) /\ igc = bs_gi b /\ rigc = bs_rgi b).
+Proof. exact borrow_site_spec. Qed.
+Print Assumptions c18_site_borrow.
+
+(* reserve factor: the reserve rate is the part of the average borrow rate not passed on to the
+   lenders, between 0 and that average; the average lies between the two borrow rates *)
+Theorem c18_reserve_rate : forall avg u rf r bapr sapr bo sb,
+  (0 <= avg -> 0 <= u <= P18 -> 0 <= rf <= P18 -> reserve_rate avg u rf = Some r -> 0 <= r <= avg) /\
+  (0 <= bapr -> 0 <= sapr -> 0 <= bo -> 0 <= sb -> average_borrow_rate bapr sapr bo sb = Ok avg ->
+     Z.min bapr sapr <= avg <= Z.max bapr sapr).
+Proof. intros. split; [apply reserve_rate_range|apply average_borrow_rate_range]. Qed.
+Print Assumptions c18_reserve_rate.
 
 (* ============ non-vacuity ============ *)
 Example c18_idx_nonvacuous :
@@ -238,25 +491,61 @@ Example c18_idx_nonvacuous :
 Proof. vm_compute. reflexivity. Qed.
 
 Example c18_rate_nonvacuous :
-  let k u := kink_apr u 800000000000000000 20000000000000000 70000000000000000 1000000000000000000 in
-  k 300000000000000000 = Some 46250000000000000 /\ k 800000000000000000 = Some 90000000000000000 /\
-  k 900000000000000000 = Some 590000000000000000 /\
-  lend_apr 590000000000000000 900000000000000000 100000000000000000 = Some 477900000000000000.
+  let p := mkRP 1 800000000000000000 20000000000000000 70000000000000000 1000000000000000000
+                10000000000000000 50000000000000000 2000000000000000000
+                P18 P18 P18 P18 100000000000000000 2 in
+  rates_valid p = true /\ rates_bounded p = true /\
+  borrow_apr p false 300000000000000000 = Some 46250000000000000 /\
+  borrow_apr p false 800000000000000000 = Some 90000000000000000 /\
+  borrow_apr p false 900000000000000000 = Some 590000000000000000 /\
+  borrow_apr p true 900000000000000000 = Some 1060000000000000000 /\
+  lend_apr_p p 900000000000000000 = Some 477900000000000000.
 Proof. vm_compute. repeat split. Qed.
 
 Example c18_carry_nonvacuous :
   carry_run 0 [600000000000000000; 700000000000000000; 2900000000000000000] = (4, 200000000000000000).
 Proof. vm_compute. reflexivity. Qed.
 
-(* a function satisfying H1-H3 exists and gives a non-zero accrual (so the premises are
-   satisfiable; whether math.Pow satisfies them is what the harness tests) *)
+(* a function satisfying the premise exists and gives a non-zero accrual (so the premise is
+   satisfiable; whether math.Pow satisfies it is what the harness tests) *)
 Example c18_cmp_nonvacuous :
-  let pw := fun x y : Z => if y =? 0 then F_ONE else x in
-  PowH1 pw /\ PowH2 pw /\ PowH3 pw /\ cmp_new pw 1000000 100000000000000000 31557600 = 100000000000000087311491.
+  let core := fun x y : Z => x in
+  PowMonoBox (go_pow core) /\ LSR_MAX = 10 * P18 /\ SECS_MAX = 3155760000 /\
+  cmp_new (go_pow core) 1000000 100000000000000000 31557600 = 100000000000000087311491.
 Proof.
   cbv zeta. split; [|split; [|split]].
-  - intros x y Hx Hy. destruct (y =? 0); lia.
-  - intros x. reflexivity.
-  - intros x x' y y' Hx Hxx Hy Hyy. destruct (Z.eqb_spec y 0); destruct (Z.eqb_spec y' 0); lia.
+  - intros x x' y y' Hx Hxx _ Hy Hyy _. unfold go_pow. pose proof F_ONE_pos.
+    destruct (Z.eqb_spec y 0); destruct (Z.eqb_spec y' 0); destruct (Z.eqb_spec x F_ONE); destruct (Z.eqb_spec x' F_ONE);
+      destruct (Z.eqb_spec y F_ONE); destruct (Z.eqb_spec y' F_ONE); cbn [orb]; lia.
+  - reflexivity.
+  - reflexivity.
   - vm_compute. reflexivity.
 Qed.
+
+(* an instance of the sub-additivity theorem: pow = the binary64 values of 1.1^(1/2) and 1.1;
+   10 % on 10^12, half a year twice against one year.  H4 holds with en = 1 (not with en = 0: the
+   rounded square root squared exceeds 1.1), the premises are met and the bound holds *)
+Example c18_cmp_subadditive_nonvacuous :
+  let pw := fun x y : Z => if y =? F_ONE then x else 4723415137801974 * 2 ^ 1022 in
+  let x := cmp_x 100000000000000000 in
+  let n1 := cmp_new pw 1000000000000 100000000000000000 15778800 in
+  let n12 := cmp_new pw 1000000000000 100000000000000000 31557600 in
+  EN_MAX = 2 ^ 40 /\ cmp_y 15778800 * 2 = F_ONE /\ F_ONE <= pw x (cmp_y 15778800) /\ F_ONE <= pw x (cmp_y 31557600) /\
+  h4_ok 0 (pw x (cmp_y 15778800)) (pw x (cmp_y 15778800)) (pw x (cmp_y 31557600)) = false /\
+  h4_ok 1 (pw x (cmp_y 15778800)) (pw x (cmp_y 15778800)) (pw x (cmp_y 31557600)) = true /\
+  holds_C18_cmp_subadditive 1 (cmp_amtf 1000000000000) (pw x (cmp_y 31557600)) n1 n1 n12 = true /\
+  (n1, n12) = (48808848170151634216308593750, 100000000000000091552734375000).
+Proof. vm_compute. repeat split; discriminate. Qed.
+
+Example c18_sites_nonvacuous :
+  let core := fun x y : Z => x in
+  (* a vault with debt 10^9 at 10 %, accrued one year after its block time, tracker 0.6 *)
+  vault_interest (go_pow core) 1731557600 (mkVS true true 100000000000000000 false 0 77 1700000000 1000000000 (Some 600000000000000000) 5)
+    = Ok (Updated 100000000000000089406967163 100000000 600000089406967163 100000005) /\
+  (* one second of 5 % on 1000 lent at index 1: below one unit, carried *)
+  lend_site 1700000001 1700000000 1000 50000000000000000 P18 None = Ok (1584404391000, 0, 1584404391000, 1000000001584404391) /\
+  (* stable-rate borrow: the stable interest is what is added *)
+  borrow_site_step 1731557600 (mkBS true 50000000000000000 10000000000000000 200000000000000000 1000 1700000000 P18 P18 0 None)
+    = Ok (200000000000000000000, 200000000000000000000, 10000000000000000000, 1050000000000000000, 1010000000000000000) /\
+  reserve_rate 100000000000000000 500000000000000000 200000000000000000 = Some 60000000000000000.
+Proof. vm_compute. repeat split. Qed.
